@@ -182,6 +182,7 @@ type c09ctx struct {
 	needsValue map[*ssa.Function][]string
 	validatedCmpCalls int
 	// interprocedural reflect-kind facts: parameter -> join over all call sites of the argument's kinds
+	havoc     bool // widen loop-carried values after the visit bound (thorough tier)
 	collect   bool
 	paramIn   map[*ssa.Parameter]KindSet
 	paramSeen map[*ssa.Parameter]int
@@ -329,6 +330,7 @@ func (c *c09ctx) analyseFunc(fn *ssa.Function) {
 	r, prog := c.r, c.prog
 	r.Analysed(fn.String())
 	ps := NewPathSim(prog)
+	ps.Havoc = c.havoc
 	ps.Inline = func(callee *ssa.Function) bool { return isPureReflectHelper(prog, callee) }
 	isCmp := c.cmpSet[fn]
 
@@ -627,6 +629,13 @@ func (c *c09ctx) indexOK(st *pstate, base, idx *Sym) (bool, string) {
 	if sortLessIndex(base, idx) {
 		return true, ""
 	}
+	// a widened descending induction variable starting at len(base)-c (c ≥ 1) and known ≥ 0
+	if bs, off := linearSym(idx); bs != nil && bs.K == sOpaque && bs.Str == "havoc-desc" && bs.A != nil && off <= 0 {
+		ib, io := linear(bs.A)
+		if ib == lk && io < 0 && lowerBoundNonNeg(st, idx) {
+			return true, ""
+		}
+	}
 	return false, fmt.Sprintf("index %s into %s is not proven within [0, len) (known len ≥ %d)", shortKey(idx), shortKey(base), n)
 }
 
@@ -688,10 +697,39 @@ func sortLessIndex(base, idx *Sym) bool {
 	return false
 }
 
+// linearSym: idx = base + offset (base nil for constants).
+func linearSym(s *Sym) (*Sym, int64) {
+	switch s.K {
+	case sConst:
+		if s.C != nil && s.C.Kind() == constant.Int {
+			v, _ := constant.Int64Val(s.C)
+			return nil, v
+		}
+	case sBin:
+		if s.B.K == sConst && s.B.C != nil && s.B.C.Kind() == constant.Int {
+			c, _ := constant.Int64Val(s.B.C)
+			b, o := linearSym(s.A)
+			if s.Op == token.ADD {
+				return b, o + c
+			}
+			if s.Op == token.SUB {
+				return b, o - c
+			}
+		}
+	}
+	return s, 0
+}
+
 func lowerBoundNonNeg(st *pstate, idx *Sym) bool {
 	b, o := linear(idx)
 	if b == "" && o >= 0 {
 		return true
+	}
+	// a widened ascending induction variable: ≥ its start
+	if bs, off := linearSym(idx); bs != nil && bs.K == sOpaque && bs.Str == "havoc-asc" && bs.C != nil {
+		if start, _ := constant.Int64Val(bs.C); start+off >= 0 {
+			return true
+		}
 	}
 	if v, ok := evalBool(st, &Sym{K: sCmp, Op: token.GEQ, A: idx, B: &Sym{K: sConst, C: constant.MakeInt64(0)}}); ok && v {
 		return true
@@ -1196,6 +1234,16 @@ func checkPanicSites(r *Run, prog *Program, a *Anchors, pfx string, roots map[*s
 	}
 	for _, f := range fns {
 		c.analyseFunc(f)
+	}
+	if r.Tier == "thorough" {
+		// second pass: after the two explored iterations every loop is entered once more with all loop-carried values
+		// unconstrained (monotone induction variables keep their bound), so sites are also judged for arbitrary
+		// iteration counts
+		c.havoc = true
+		for _, f := range fns {
+			c.analyseFunc(f)
+		}
+		c.havoc = false
 	}
 	// pure helpers analysed on their own too (parameters: any kind)
 	for f := range roots {
